@@ -1,4 +1,5 @@
 import NGF.Model.Loop
+import NGF.Model.Delivery
 import NGF.Model.Proto
 /-
 Driver entry for C10.
@@ -6,6 +7,12 @@ Driver entry for C10.
   output     :  `log=<lists> next=<list> h=<..> handling=<..> phase=<..> overlap=<..> skipped=<n>`
   judge line :  `first=<natlist> sent=<natlist> batches=<lists> exits=<lists> maxconc=<n> early=<0|1> drained=<0|1>`
   output     :  `ok` | `fail <clause>`
+Delivery (`NGF.Model.Delivery`):
+  dmodel line:  `qs=<q|q|…> first=<natlist> ops=<op,…>`  q = `id:pass:get,…` (get f|n|e); ops: b<i> | d<i>:<ev> | g<i> | c | lh | la | lc | ld
+  output     :  `from=<lists> dropped=<lists> failed=<lists> skippedids=<lists> gets=<natlist> ctx=<0|1> skipped=<n>`
+  djudge line:  `qs=… recv=<natlist> errs=<natlist> cancelled=<0|1> …`     output `ok` | `fail <clause>`
+  pmodel line:  `objs=<id:get,…> lists=<items|E|…>`                        output `batch=<natlist|ERR> calls=<natlist>`
+  pjudge line:  `objs=… lists=… out=<natlist|ERR>`                         output `ok` | `fail <clause>`
 -/
 namespace NGF.Loop
 open NGF.Proto
@@ -66,13 +73,152 @@ def judgeLine (line : String) : String :=
     | some c => "fail " ++ c
   | _, _, _, _, _, _, _ => "bad-op"
 
+end NGF.Loop
+
+namespace NGF.Delivery
+open NGF.Proto NGF.Loop
+
+def parseGet (s : String) : Option GetRes :=
+  if s == "f" then some .found else if s == "n" then some .notFound else if s == "e" then some .error else none
+
+def parseReq (s : String) : Option Req :=
+  match s.splitOn ":" with
+  | [i, p, g] =>
+    match i.toNat?, p.toNat?, parseGet g with
+    | some id, some pp, some gg => some ⟨id, pp != 0, gg⟩
+    | _, _, _ => none
+  | _ => none
+
+def parseQueue (s : String) : Option (List Req) :=
+  if s == "-" || s == "" then some [] else (s.splitOn ",").mapM parseReq
+
+def parseQueues (s : String) : Option (List (List Req)) :=
+  if s == "~" then some [] else (s.splitOn "|").mapM parseQueue
+
+def parseDOp (s : String) : Option DOp :=
+  if s == "c" then some (.act .cancelCtx)
+  else if s == "lh" then some (.act (.loop .hreturn))
+  else if s == "la" then some (.act (.loop .ack))
+  else if s == "lc" then some (.act (.loop .cancel))
+  else if s == "ld" then some (.act (.loop .drainack))
+  else if s.startsWith "b" then (s.drop 1).toString.toNat?.map (fun i => .act (.begin i))
+  else if s.startsWith "g" then (s.drop 1).toString.toNat?.map (fun i => .act (.giveup i))
+  else if s.startsWith "d" then
+    match (s.drop 1).toString.splitOn ":" with
+    | [i, e] => match i.toNat?, e.toNat? with
+      | some ii, some ee => some (.deliverEv ii ee)
+      | _, _ => none
+    | _ => none
+  else none
+
+/-- ids the Getter was asked for: requests already started whose name passed the filter. -/
+def getsOf (qs : List (List Req)) (recs : List Rec) : List Nat :=
+  (qs.zip recs).flatMap fun (q, r) => ((q.take (q.length - r.todo.length)).filter (·.pass)).map (·.id)
+
+def sortNat (l : List Nat) : List Nat := (l.toArray.qsort (· < ·)).toList
+
+def dmodelLine (line : String) : String :=
+  let fs := line.splitOn " "
+  match field fs "qs" >>= parseQueues, field fs "first" >>= parseNatList, field fs "ops" with
+  | some qs, some first, some o =>
+    match (if o == "-" then some [] else (o.splitOn ",").mapM parseDOp) with
+    | some ops =>
+      let (s, k) := runOps (Sys.init first qs) 0 ops
+      let idxs := List.range s.recs.length
+      s!"from={showNatLists (idxs.map s.seenFrom)} dropped={showNatLists (s.recs.map Rec.dropped)} failed={showNatLists (s.recs.map (·.failed))} skippedids={showNatLists (s.recs.map (·.skipped))} gets={showNatList (sortNat (getsOf qs s.recs))} ctx={if s.ctxDone then 1 else 0} quiet={s.quiet} skipped={k}"
+    | none => "bad-op"
+  | _, _, _ => "bad-op"
+
+/-- The property on an observed execution: what the loop received from reconciler `i` (ids of
+reconciler i are `1000*i + k`, events `2*id` / `2*id+1`). Context live: exactly the demanded events,
+once each, in queue order. Context cancelled: an in-order sub-sequence of them. Errors of Get are
+reported (so that controller-runtime requeues) exactly for the requests whose Get failed. -/
+def djudge (qs : List (List Req)) (recv errs : List Nat) (cancelled : Bool) : Option String :=
+  let w := qs.length
+  let fromI (i : Nat) := recv.filter (fun e => e / 2000 == i)
+  let want (q : List Req) := q.filterMap Req.ev
+  let wantErrs := sortNat (qs.flatten.filterMap fun r => if r.pass && r.get == .error then some r.id else none)
+  if recv.any (fun e => e / 2000 ≥ w) then some "request_handled_exactly_once:unknown_event"
+  else if !cancelled && (List.range w).any (fun i => fromI i != want (qs.getD i [])) then
+    some "reconciler_never_drops"
+  else if cancelled && (List.range w).any (fun i => !(fromI i).isSublist (want (qs.getD i []))) then
+    some "request_handled_exactly_once"
+  else if sortNat errs != wantErrs then some "reconcile_error_reported"
+  else none
+
+def djudgeLine (line : String) : String :=
+  let fs := line.splitOn " "
+  match field fs "qs" >>= parseQueues, field fs "recv" >>= parseNatList, field fs "errs" >>= parseNatList,
+        field fs "cancelled" with
+  | some qs, some recv, some errs, some c =>
+    match djudge qs recv errs (c == "1") with
+    | none => "ok"
+    | some cl => "fail " ++ cl
+  | _, _, _, _ => "bad-op"
+
+def parseObj (s : String) : Option (Nat × GetRes) :=
+  match s.splitOn ":" with
+  | [i, g] => match i.toNat?, parseGet g with
+    | some id, some gg => some (id, gg)
+    | _, _ => none
+  | _ => none
+
+def parseObjs (s : String) : Option (List (Nat × GetRes)) :=
+  if s == "-" || s == "" then some [] else (s.splitOn ",").mapM parseObj
+
+def parseLists (s : String) : Option (List ListRes) :=
+  if s == "~" then some []
+  else (s.splitOn "|").mapM fun x => if x == "E" then some .error else (parseNatList x).map .ok
+
+def pmodelLine (line : String) : String :=
+  let fs := line.splitOn " "
+  match field fs "objs" >>= parseObjs, field fs "lists" >>= parseLists with
+  | some objs, some lists =>
+    let b := match prepare objs lists with
+      | none => "ERR"
+      | some b => showNatList b
+    s!"batch={b} calls={showNatList (prepareCalls objs lists)}"
+  | _, _ => "bad-op"
+
+/-- The property of the start-up batch on the real output: `Prepare` fails exactly when a read fails
+(a missing object is not a failure), and a returned batch is complete (`firstBatchComplete`). -/
+def pjudge (objs : List (Nat × GetRes)) (lists : List ListRes) (out : Option (List Nat)) : Option String :=
+  match out with
+  | none => if readFails objs lists then none else some "prepare_aborts_iff"
+  | some b =>
+    if readFails objs lists then some "prepare_aborts_iff"
+    else if !firstBatchComplete objs lists b then some "first_batch_complete"
+    else none
+
+def pjudgeLine (line : String) : String :=
+  let fs := line.splitOn " "
+  match field fs "objs" >>= parseObjs, field fs "lists" >>= parseLists, field fs "out" with
+  | some objs, some lists, some o =>
+    let out := if o == "ERR" then some none else (parseNatList o).map some
+    match out with
+    | some out =>
+      match pjudge objs lists out with
+      | none => "ok"
+      | some cl => "fail " ++ cl
+    | none => "bad-op"
+  | _, _, _ => "bad-op"
+
+end NGF.Delivery
+
+namespace NGF.Loop
+open NGF.Proto
+
 def driver (args : List String) : IO UInt32 := do
   let stdin ← IO.getStdin
   let stdout ← IO.getStdout
   match args with
   | ["model"] => forEachLine stdin fun l => stdout.putStrLn (modelLine l)
   | ["judge"] => forEachLine stdin fun l => stdout.putStrLn (judgeLine l)
-  | _ => IO.eprintln "usage: C10 model|judge"; return 2
+  | ["dmodel"] => forEachLine stdin fun l => stdout.putStrLn (NGF.Delivery.dmodelLine l)
+  | ["djudge"] => forEachLine stdin fun l => stdout.putStrLn (NGF.Delivery.djudgeLine l)
+  | ["pmodel"] => forEachLine stdin fun l => stdout.putStrLn (NGF.Delivery.pmodelLine l)
+  | ["pjudge"] => forEachLine stdin fun l => stdout.putStrLn (NGF.Delivery.pjudgeLine l)
+  | _ => IO.eprintln "usage: C10 model|judge|dmodel|djudge|pmodel|pjudge"; return 2
   return 0
 
 end NGF.Loop
